@@ -1,8 +1,9 @@
 """
 Contracts for netservice.RouterInfoCache: the loop-free lookup is verified
-deductively (symbolic network numbers, tables of 0..3 paths); the mutating
-operations over nested dicts of identity-compared records are decided by the
-executable contracts of bounded/c19.py over the property's own bound.
+with symbolic network numbers (tables of 0..3 paths); the mutating operations
+are verified over a structurally bounded cache (see Cache1) with the abstract
+view and the representation invariant as postconditions; bounded/c19.py drives
+whole histories natively on top.
 """
 from pyvc.contracts import contract, Obj, Int, Const, OneOf, NoneOr, Fn, Tuple
 from contracts.comm import Token, Tok
@@ -40,3 +41,89 @@ for _k in range(4):
         post={"result": "lookup(self, snet, dnet)"},        # the record credited with (snet, dnet), or None; the cache is not changed (frame)
         applies_when="len(self.path_info) == %d" % _k,
         note="bounded in structure: %d known paths, all network numbers symbolic" % _k)
+
+# -- the mutating operations over a structurally bounded cache: every assignment of 3 destinations of network 1 to {nobody, router A, router B} ----
+# (plus one path on network 2 that must never be touched); argument sets are every non-empty subset of the destinations plus a foreign one
+
+from pyvc.contracts import Bool
+from bacpypes.pdu import LocalStation
+
+RA, RB, RC = LocalStation(1), LocalStation(2), LocalStation(3)
+DN = (10, 20, 30)
+SUBSETS = ([10], [20], [30], [10, 20], [20, 30], [10, 30], [10, 20, 30], [40], [10, 40])
+
+def Cache1():
+    def build(b, name):
+        from bacpypes.netservice import RouterInfoCache
+        c = RouterInfoCache()
+        for d in DN:
+            who = OneOf(None, 'A', 'B').build(b, '%s.net%d' % (name, d))
+            if who is not None:
+                c.update_router_info(1, RA if who == 'A' else RB, [d])
+        c.update_router_info(2, RA, [10])          # another attached network: its knowledge is separate
+        b.built[name] = c
+        return c
+    return Fn(build)
+
+def view(c):
+    """abstract view: (attached network, destination) -> address of the router credited with it"""
+    out = {}
+    for s in (1, 2, 3):
+        for d in DN + (40,):
+            ri = c.get_router_info(s, d)
+            if ri is not None:
+                out[(s, d)] = ri.address
+    return out
+
+def rep_ok(c):
+    """representation invariant: the two indexes agree, nothing dangles in either direction"""
+    for (s, d), ri in c.path_info.items():
+        if c.routers.get(s, {}).get(ri.address) is not ri or d not in ri.dnets:
+            return False
+    for s, table in c.routers.items():
+        for a, ri in table.items():
+            if not (ri.address == a) or len(ri.dnets) == 0:
+                return False
+            for d in ri.dnets:
+                if c.path_info.get((s, d)) is not ri:
+                    return False
+    return True
+
+def learned(old, s, a, D):
+    new = dict(old)
+    for d in D:
+        new[(s, d)] = a
+    return new
+
+contract("bacpypes.netservice:RouterInfoCache.update_router_info",
+    params={"self": Cache1(), "snet": Const(1), "address": OneOf(RA, RB, RC), "dnets": OneOf(*SUBSETS)},
+    ensures=["rep_ok(self)", "view(self) == learned(old(view(self)), snet, address, dnets)"],       # newest knowledge wins, everything else unchanged
+    modifies=["self.routers", "self.path_info", "self.routers[1]", "self.*"], frame_on_raise=False,
+    note="bounded in structure: 27 cache states x 3 routers x 9 destination sets")
+
+def forgot_router(old, s, a, D):
+    return dict((k, v) for k, v in old.items() if not (k[0] == s and v == a and (D is None or k[1] in D)))
+
+def forgot_dnets(old, s, D):
+    return dict((k, v) for k, v in old.items() if not (k[0] == s and k[1] in D))
+
+contract("bacpypes.netservice:RouterInfoCache.delete_router_info", name="bacpypes.netservice:RouterInfoCache.delete_router_info[router]",
+    params={"self": Cache1(), "snet": Const(1), "address": OneOf(RA, RB, RC), "dnets": OneOf(None, *SUBSETS)},
+    ensures=["rep_ok(self)", "view(self) == forgot_router(old(view(self)), snet, address, dnets)"],
+    modifies=["self.routers", "self.path_info", "self.*"],
+    note="forget a router (entirely, or for the given destinations): exactly those paths go, the router only when it leads nowhere any more")
+
+contract("bacpypes.netservice:RouterInfoCache.delete_router_info", name="bacpypes.netservice:RouterInfoCache.delete_router_info[destinations]",
+    params={"self": Cache1(), "snet": Const(1), "address": Const(None), "dnets": OneOf(*SUBSETS)},
+    ensures=["rep_ok(self)", "view(self) == forgot_dnets(old(view(self)), snet, dnets)"],
+    modifies=["self.routers", "self.path_info", "self.*"])
+
+def renumbered(old, o, n):
+    return dict((((n if k[0] == o else k[0]), k[1]), v) for k, v in old.items())
+
+contract("bacpypes.netservice:RouterInfoCache.update_source_network",
+    params={"self": Cache1(), "old_snet": OneOf(1, 2, 3), "new_snet": Const(3)},
+    requires=["old_snet != new_snet"],
+    ensures=["rep_ok(self)", "view(self) == renumbered(old(view(self)), old_snet, new_snet)"],
+    modifies=["self.routers", "self.path_info", "self.*"],
+    note="the attached network learns its number: its knowledge moves with it (onto a network that holds nothing yet)")
